@@ -13,11 +13,25 @@
     edge.  On a cyclic graph Test.Run recurses without bound (Go: fatal stack
     overflow); the model answers [None] for every fuel ([C06_cycle_diverges]).
 
-    The hardware-fault clause of the property is NOT a theorem: it is enumerated
-    on the real checks by the harness (props/C06.json, level_note).  Its per-check
-    form ("the check ran alone on stored results, every access it made failed")
-    rests on [C06_prefilled_check_alone] for the runner side. *)
-From CSS Require Import Lib.Base Model.Runner Proofs.Runner.
+    The hardware-fault clause of the property is NOT a theorem about the real
+    checks: it is enumerated on them by the harness (props/C06.json, level_note).
+    Its per-check form ("the check ran alone on stored results, every access it
+    made failed") rests on [C06_prefilled_check_alone] for the runner side.
+
+    What IS proved about faults (second half of this file, Model/RunnerFault.v):
+    the runner composed with checks that make numbered hardware accesses, under
+    ANY hardware behaviour (in particular the two fault patterns of the
+    quantifier).  A check is a tree of accesses [prog]; [run_h] threads one call
+    counter through all evaluations and records per evaluation the window of
+    calls and which of them failed.  For checks that follow the discipline the
+    code base intends ("checks convert hwapi errors into internal errors",
+    [converts]; weaker: [fail_closed], no PASS is reachable after a failed
+    access) the fail-closed clauses hold through the whole dependency graph
+    ([C06_fault_*_partial]: the discipline of the ~85 real checks is a
+    hypothesis here -- it is what the harness enumerates, evaluation by
+    evaluation, with [swallows] as the judged predicate); without it they do not
+    ([C06_fault_swallowed_error_refuted]: the shape of a dropped read error). *)
+From CSS Require Import Lib.Base Model.Runner Proofs.Runner Model.RunnerFault Proofs.RunnerFault.
 Local Open Scope nat_scope.
 
 Definition acyclic (ts : nat -> test) (rank : nat -> nat) : Prop :=
@@ -238,3 +252,189 @@ Proof. eexists. vm_compute. reflexivity. Qed.
 Example ex_silent_ok :
   exists s', run_silent ex_ts ex_chk 4 init_state [3; 1] = Some (s', SOk) /\ res s' 1 = RPass.
 Proof. eexists. split; vm_compute; reflexivity. Qed.
+
+(** * The runner over failing hardware (Model/RunnerFault.v) *)
+
+(** the two fault patterns of the property's quantifier, calls counted from 1 *)
+Theorem C06_fault_patterns :
+  forall k n : nat,
+    (fails (FFromK k) n = true <-> k <= n) /\ (fails (FOnlyK k) n = true <-> n = k) /\
+              fails FNone n = false.
+Proof. intros k n. split; [apply fails_from_k|]. split; [apply fails_only_k|reflexivity]. Qed.
+Print Assumptions C06_fault_patterns.
+
+(** A new clause about the plain runner (any oracle, any stored results): in one
+    call of Test.Run the stored result of EVERY test whose check was evaluated in
+    the call -- the test itself and every dependency entered -- is the
+    classification of what that evaluation returned (nothing overwrites it
+    later in the call). *)
+Theorem C06_event_explains_result :
+  forall ts chk rank, acyclic ts rank ->
+  forall fuel asdep s id s' new,
+    run ts chk fuel asdep s id = Some s' -> trace s' = trace s ++ new ->
+    forall e, In e new -> res s' (ev_id e) = classify (ev_out e).
+Proof. exact run_event_res. Qed.
+Print Assumptions C06_event_explains_result.
+
+(** The runner over hardware IS the runner of the first half of this file: its
+    stored results, blames and evaluations are those of [run] for the oracle
+    that answers what the checks returned in this execution; so every theorem
+    above ([C06_pass_iff], [C06_dep_blocks], [C06_once_per_call], ...) holds for
+    it, for any check programs and any hardware. *)
+Theorem C06_fault_runner_same :
+  forall D ts (progs : nat -> nat -> prog D) hw fuel asdep s id s',
+    run_h ts progs hw fuel asdep s id = Some s' ->
+    exists chk, run ts chk fuel asdep (hs s) id = Some (hs s').
+Proof. intros. eexists. eapply run_h_as_run; eauto. Qed.
+Print Assumptions C06_fault_runner_same.
+
+(** One check on any hardware: after a failed access a fail-closed check does
+    not return success ... *)
+Theorem C06_fault_check_fail_closed :
+  forall D (p : prog D), fail_closed p ->
+  forall hw c, In true (snd (exec p hw c)) -> fst (exec p hw c) <> o_pass.
+Proof. exact exec_fail_closed. Qed.
+Print Assumptions C06_fault_check_fail_closed.
+
+(** ... and a check that converts hwapi errors stops at the first failed access
+    and returns exactly an internal error. *)
+Theorem C06_fault_check_converts :
+  forall D (p : prog D), converts p ->
+  forall hw c, In true (snd (exec p hw c)) ->
+    classify (fst (exec p hw c)) = RIntErr /\ exists n, snd (exec p hw c) = repeat false n ++ [true].
+Proof. exact exec_converts. Qed.
+Print Assumptions C06_fault_check_converts.
+
+(** Through the runner, any graph, any stored results, ANY hardware behaviour
+    (every fault pattern): a test whose check was handed a failed access in
+    this call is not PASS.  [_partial]: the discipline of the check programs is
+    a hypothesis; for the real checks it is enumerated by the harness. *)
+Theorem C06_fault_no_pass_after_failed_access_partial :
+  forall D ts (progs : nat -> nat -> prog D) hw rank, acyclic ts rank ->
+  (forall id n, fail_closed (progs id n)) ->
+  forall fuel asdep s id s' newh,
+    run_h ts progs hw fuel asdep s id = Some s' -> htrace s' = htrace s ++ newh ->
+    forall h, In h newh -> In true (h_flags h) -> res (hs s') (h_id h) <> RPass.
+Proof. exact h_failed_access_not_pass. Qed.
+Print Assumptions C06_fault_no_pass_after_failed_access_partial.
+
+(** With converting checks the stored result is INTERNAL_ERROR. *)
+Theorem C06_fault_internal_error_partial :
+  forall D ts (progs : nat -> nat -> prog D) hw rank, acyclic ts rank ->
+  (forall id n, converts (progs id n)) ->
+  forall fuel asdep s id s' newh,
+    run_h ts progs hw fuel asdep s id = Some s' -> htrace s' = htrace s ++ newh ->
+    forall h, In h newh -> In true (h_flags h) -> res (hs s') (h_id h) = RIntErr.
+Proof. exact h_failed_access_internal_error. Qed.
+Print Assumptions C06_fault_internal_error_partial.
+
+(** PASS under faults: the check of the test ran in this call, EVERY hardware
+    access it made succeeded, it returned success without errors, and every
+    implemented dependency is PASS. *)
+Theorem C06_fault_pass_clean_partial :
+  forall D ts (progs : nat -> nat -> prog D) hw rank, acyclic ts rank ->
+  (forall id n, fail_closed (progs id n)) ->
+  forall fuel asdep s id s' newh,
+    run_h ts progs hw fuel asdep s id = Some s' -> htrace s' = htrace s ++ newh ->
+    res (hs s') id = RPass ->
+    (exists h, In h newh /\ h_id h = id /\ h_dep h = asdep /\ h_out h = o_pass /\
+               forall b, In b (h_flags h) -> b = false) /\
+    forall d, In d (deps (ts id)) -> implemented (ts d) = true -> res (hs s') d = RPass.
+Proof. exact h_pass_clean. Qed.
+Print Assumptions C06_fault_pass_clean_partial.
+
+(** A failed access inside the check of an implemented dependency: the
+    dependant is DEPENDENCY_FAILED and its check is not evaluated. *)
+Theorem C06_fault_dependant_blocked_partial :
+  forall D ts (progs : nat -> nat -> prog D) hw rank, acyclic ts rank ->
+  (forall id n, fail_closed (progs id n)) ->
+  forall fuel asdep s id s' newh d h,
+    run_h ts progs hw fuel asdep s id = Some s' -> htrace s' = htrace s ++ newh ->
+    In d (deps (ts id)) -> implemented (ts d) = true ->
+    In h newh -> h_id h = d -> In true (h_flags h) ->
+    res (hs s') id = RDepFailed /\ forall h', In h' newh -> h_id h' <> id.
+Proof. exact h_failed_access_blocks. Qed.
+Print Assumptions C06_fault_dependant_blocked_partial.
+
+(** "When every hardware access fails no hardware-dependent check passes":
+    every call fails (pattern "k-th and all later" with k <= 1 over any
+    platform) -- no test whose check made an access is PASS. *)
+Theorem C06_fault_total_failure_partial :
+  forall D ts (progs : nat -> nat -> prog D) base k rank, acyclic ts rank -> k <= 1 ->
+  (forall id n, fail_closed (progs id n)) ->
+  forall fuel asdep s id s' newh,
+    run_h ts progs (inject (FFromK k) base) fuel asdep s id = Some s' -> htrace s' = htrace s ++ newh ->
+    forall h, In h newh -> h_flags h <> [] -> res (hs s') (h_id h) <> RPass.
+Proof.
+  intros D ts progs base k rank Hr Hk Hfc fuel asdep s id s' newh.
+  apply (h_total_failure D ts progs _ rank Hr Hfc). now apply inject_total.
+Qed.
+Print Assumptions C06_fault_total_failure_partial.
+
+(** Termination over hardware on acyclic graphs (check programs are
+    well-founded trees: a check terminates by construction in this model). *)
+Theorem C06_fault_terminates :
+  forall D ts (progs : nat -> nat -> prog D) hw rank, acyclic ts rank ->
+  forall fuel id, rank id < fuel ->
+  forall asdep s, exists s', run_h ts progs hw fuel asdep s id = Some s'.
+Proof. exact run_h_total. Qed.
+Print Assumptions C06_fault_terminates.
+
+(** Without the discipline the clauses fail.  Witness: test 0 reads twice and
+    does not look at the error of the second read, test 1 depends on it and
+    makes no access; pattern "only the 2nd call fails": test 0 is PASS although
+    its second access failed, and the dependant runs and passes. *)
+Theorem C06_fault_swallowed_error_refuted :
+  exists ts (progs : nat -> nat -> prog unit) rank s',
+    acyclic ts rank /\ ~ fail_closed (progs 0 0) /\
+    run_h ts progs (inject (FOnlyK 2) (fun _ => tt)) 2 false (init_hstate init_state) 1 = Some s' /\
+    res (hs s') 0 = RPass /\ res (hs s') 1 = RPass /\
+    htrace s' = [mkHev 0 true 0 [false; true] o_pass; mkHev 1 false 2 [] o_pass] /\
+    swallows (htrace s') = [0].
+Proof.
+  destruct swallow_witness as (s' & A & B & C & E & F).
+  exists sw_ts, sw_progs, sw_rank, s'.
+  split; [exact sw_acyclic|]. split; [exact swallow_not_fail_closed|]. auto.
+Qed.
+Print Assumptions C06_fault_swallowed_error_refuted.
+
+(** ** the hypotheses are satisfiable by non-trivial values *)
+
+(** a check with two accesses that converts a failed access into an internal error
+    and otherwise decides on the data *)
+Definition ex_good : prog nat :=
+  Acc (fun r1 => match r1 with
+                 | None => Ret (false, false, true)
+                 | Some a => Acc (fun r2 => match r2 with
+                                            | None => Ret (false, false, true)
+                                            | Some b => if Nat.eqb a b then Ret o_pass else Ret (false, true, false)
+                                            end)
+                 end).
+
+Example ex_good_converts : converts ex_good /\ fail_closed ex_good.
+Proof.
+  assert (C : converts ex_good).
+  { constructor; [now exists false|]. intro a. constructor; [now exists false|].
+    intro b. destruct (Nat.eqb a b); constructor. }
+  split; [exact C|now apply converts_fail_closed].
+Qed.
+
+(** the graph of the refutation with the disciplined check: healthy it passes and
+    so does the dependant; under "only the 2nd call fails" test 0 is
+    INTERNAL_ERROR after two accesses (the second one failed) and the dependant
+    is DEPENDENCY_FAILED without being evaluated *)
+Definition ex_progs : nat -> nat -> prog nat := fun i _ => match i with O => ex_good | _ => Ret o_pass end.
+
+Example ex_good_discipline : forall id n, fail_closed (ex_progs id n).
+Proof. intros [|id] n; cbn; [apply ex_good_converts|constructor]. Qed.
+
+Example ex_fault_healthy :
+  exists s', run_h sw_ts ex_progs (inject FNone (fun _ => 7)) 2 false (init_hstate init_state) 1 = Some s' /\
+    res (hs s') 0 = RPass /\ res (hs s') 1 = RPass /\ hcalls s' = 2.
+Proof. eexists. split; [vm_compute; reflexivity|]. repeat split; vm_compute; reflexivity. Qed.
+
+Example ex_fault_only_2 :
+  exists s', run_h sw_ts ex_progs (inject (FOnlyK 2) (fun _ => 7)) 2 false (init_hstate init_state) 1 = Some s' /\
+    res (hs s') 0 = RIntErr /\ res (hs s') 1 = RDepFailed /\
+    htrace s' = [mkHev 0 true 0 [false; true] (false, false, true)] /\ swallows (htrace s') = [].
+Proof. eexists. split; [vm_compute; reflexivity|]. repeat split; vm_compute; reflexivity. Qed.
